@@ -335,10 +335,25 @@ func HoistOverlay(repo string) (map[string][]byte, int, error) {
 					if hasCall(call.Fun) {
 						continue
 					}
+					// nothing that is evaluated before the hoisted call may read memory the call could change:
+					// the callee is `f`, `pkg.f` or `x.f` and the earlier arguments are identifiers or literals
+					simple := func(e ast.Expr) bool {
+						switch x := e.(type) {
+						case *ast.Ident, *ast.BasicLit:
+							return true
+						case *ast.SelectorExpr:
+							_, ok := x.X.(*ast.Ident)
+							return ok && x == call.Fun
+						}
+						return false
+					}
+					if !simple(call.Fun) {
+						continue
+					}
 					for _, a := range call.Args {
 						inner, isCall := a.(*ast.CallExpr)
 						if !isCall {
-							if hasCall(a) {
+							if hasCall(a) || !simple(a) {
 								break
 							}
 							continue
